@@ -22,10 +22,10 @@ kept = own = 0
 for l in rows:
     c = [x.strip() for x in l.strip().strip('|').split('|')]
     i, prop, k, o, rules, others = c
-    st = 'confirmed' if k == 'yes' else 'recorded only (not observable on this machine: written execution / Miri)'
+    st = ('confirmed' + (' (superseded: ' + o[o.index('('):].strip('()') + ')' if '(' in o else '')) if k == 'yes' else 'recorded only (not observable on this machine: written execution / Miri)'
     kept += k == 'yes'
-    own += (k == 'yes' and o == 'yes')
-    tab.append('| %s | %s | %s | %s | %s |' % (i, title(i), st, rules if o == 'yes' else '— (neighbour only)', others))
+    own += (k == 'yes' and o.startswith('yes'))
+    tab.append('| %s | %s | %s | %s | %s |' % (i, title(i), st, rules if o.startswith('yes') else '— (neighbour only)', others))
 txt = BEGIN + '\n' + '\n'.join(tab) + '\n\n(%d changes, %d confirmed, %d of those reported by the check of their own property, all reported by at least one check.)\n' % (len(rows), kept, own) + END
 p = os.path.join(HERE, 'DESIGN.md')
 s = open(p).read()
